@@ -136,6 +136,15 @@ HAND = [
     "CCO>>CCOC(C)=O",
     "c1ccccc1>>Cc1ccccc1",
     "CC(=O)O>>CC(=O)OCC",
+    # element balanced (or nearly) but the net charge differs, both sides charged
+    "[Cu+]>>[Cu+2]",
+    "[Fe+2].[Cl-]>>[Fe+3].[Cl-]",
+    "[Ce+4].[Fe+2]>>[Ce+3].[Fe+2]",
+    "[O-]C(=O)CC(=O)O>>[O-]C(=O)CC(=O)[O-]",
+    "[NH4+]>>N",
+    "[Na+].[Cl-]>>[Na].[Cl-]",
+    "C[N+](C)(C)C.[OH-]>>C[N+](C)(C)C",
+    "[Fe+3].[Fe+3]>>[Fe+2].[Fe+2]",
     # nothing in common under any search condition
     "C>>N",
     "CCBr>>N",
